@@ -8,6 +8,23 @@ ROOT = os.path.dirname(os.path.dirname(os.path.abspath(__file__)))
 
 # id -> (category, technique, level text, level note, design ref)
 CHECKS = {
+    'C10': ('exploration',
+            'Hypothesis-generated command programs compared step by step with '
+            'a plain reference model (responses and full probe dumps)',
+            'Programs of <= 30 commands (APPEND with flags/date, STORE and UID '
+            'STORE in three modes and .SILENT, EXPUNGE, UID EXPUNGE, COPY, '
+            'MOVE and UID variants, FETCH with and without .PEEK, CLOSE + '
+            'reselect) with sequence-set shapes single / range / reversed / * '
+            '/ n:* / *:n / duplicate lists / out-of-range / expunged UIDs, on '
+            'dict and maildir. After every command: which messages were '
+            'reported, their flags, EXPUNGE numbers replayed on the model, '
+            'COPYUID pairs in order, APPENDUID, and a probe dump of both '
+            'mailboxes (UIDs, system flags, X-Vid content identity, supplied '
+            'INTERNALDATE) against the model. Sampled.',
+            'The model is my reading of RFC 3501/4315/6851; documented '
+            'latitude (out-of-range numbers, non-permitted keywords, \\Recent) '
+            'is listed in the evidence assumptions.',
+            'DESIGN.md section 3, C10'),
     'C12': ('exploration',
             'Hypothesis-generated programs inside a read-only selection; '
             'differential oracle (same setup with and without the program) '
